@@ -222,7 +222,7 @@ class Alias(Profile):
                 e["as"] = h
                 ops.append(e)
                 exports.append(h)
-                if not (avoid.get("edit_cached_gdf") and e["what"] == "gdf" and e.get("cache", True)):
+                if not (avoid.get("edit_cached_gdf") and e["what"] == "gdf"):
                     editable.append(h)
             elif editable:
                 ops.append({"op": "edit", "x": rng.choice(editable), "k": rng.randrange(1000)})
@@ -532,7 +532,9 @@ class Alias(Profile):
             vs = self.check_exports_untouched(W, i, what)
         self.refresh(W, h)
         c = self.canon_export(obj)
-        W.exports[op["as"]] = {"obj": obj, "op": op, "on": h, "version": W.version[h], "canon": c, "edited": False, "digest": self.export_digest(obj)}
+        first = obj[0] if isinstance(obj, tuple) else obj
+        is_cache = first is g._gdf_cached_parameters.get("gdf")  # the grid handed out its cache itself
+        W.exports[op["as"]] = {"obj": obj, "op": op, "on": h, "version": W.version[h], "canon": c, "edited": False, "digest": self.export_digest(obj), "is_cache": is_cache}
         W.fire("export")
         W.cov["judged"] += 1
         from sim import canon as C
@@ -549,7 +551,7 @@ class Alias(Profile):
         """Objects handed out earlier and not edited by the caller keep the value they had."""
         for xh in sorted(W.exports):
             x = W.exports[xh]
-            if x["edited"]:
+            if x["edited"] or x.get("is_cache"):
                 continue
             try:
                 cur = self.export_digest(x["obj"])
@@ -691,7 +693,7 @@ class Alias(Profile):
         W.cov["judged"] += 1
         xw = x["op"]["what"]
         if xw == "gdf":
-            xw = "gdf(cached)" if x["op"].get("cache", True) else "gdf(uncached)"
+            xw = "gdf(cached)" if x.get("is_cache") else "gdf(uncached)"
         what = f"edit[{xw}:{kind}]"
         vs = self.check_others(W, i, None, what)
         if not vs:
